@@ -1,6 +1,16 @@
 """Frozen specification of the release-1.4.0 storage key scheme + contracts of the functions that
-contribute to a storage location (K1..K14 of DESIGN.md section 4)."""
+contribute to a storage location (K1..K14 of DESIGN.md section 4).
+
+The spec functions below were written from the pinned commit (= release 1.4.0 + the unreleased `~~`
+input syntax, which does not touch key derivation) and are frozen: any later change of separators,
+ordering, hash, truncation, value text, slug derivation or directory layout in /repo fails an
+`eq_spec` obligation.  contracts/golden.py pins the spec itself with golden vectors.
+"""
+from pathlib import Path
+
 from pyvc.dsl import *
+from pyvc.prims import sha256_hex, implies
+from taskchain.parameter import ParameterObject
 
 # ------------------------------------------------------------------------------------------------
 # shapes
@@ -8,21 +18,131 @@ from pyvc.dsl import *
 # a Parameter as an element of the registry: what ParameterRegistry.repr needs of it is its `repr`
 ParamEntry = Rec('ParamEntry', {'entry': Opt(Str)}, cls='taskchain.parameter:Parameter')
 
+PARAM_FIELDS = dict(_name=Str, _value=Dyn, default=Dyn, ignore_persistence=Bool, dont_persist_default_value=Bool,
+                    dtype=Opt(ClsTag))
+
+
+def ParamObj():
+    return Obj('taskchain.parameter:Parameter', **{f: S(k, f'p.{f}') for f, k in PARAM_FIELDS.items()})
+
 
 # ------------------------------------------------------------------------------------------------
 # spec functions (frozen 1.4.0)
 # ------------------------------------------------------------------------------------------------
+RECURSIVE = {'enc': ([Dyn], Str)}
+
+
+def enc(obj):
+    """K1  utils.clazz.repr_from_instantiation: the value text."""
+    if isinstance(obj, list):
+        return '[' + ', '.join([enc(val) for val in obj]) + ']'
+    if isinstance(obj, dict):
+        return '{' + ', '.join([f'{enc(key)}: {enc(val)}' for key, val in sorted(obj.items())]) + '}'
+    if hasattr(obj, 'repr'):
+        if callable(obj.repr):
+            return obj.repr()
+        return obj.repr
+    if isinstance(obj, str):
+        return f"'{obj}'"
+    if hasattr(obj, '_taskchain_instantiate_repr'):
+        return obj._taskchain_instantiate_repr
+    return repr(obj)
+
+
+def builtin_isinstance(obj, clazz):
+    """assumed contract of utils.clazz.isinstance (K1'): it is the builtin isinstance (classes are
+    identified by their full name; two distinct classes never share one).  Conformance: bounded check K1p."""
+    return isinstance(obj, clazz)
+
+
+def param_value(p):
+    """K4  Parameter.value (value set)."""
+    if p.dtype is Path and p._value is not None:
+        return Path(p._value)
+    return p._value
+
+
+def value_text(p):
+    """K2  AbstractParameter.value_repr."""
+    v = param_value(p)
+    if isinstance(v, ParameterObject):
+        return v.repr()
+    if isinstance(v, Path):
+        return repr(p._value)
+    return enc(v)
+
+
+def param_entry(p):
+    """K3  AbstractParameter.repr: 'name=value text', or None when excluded from persistence."""
+    if p.ignore_persistence:
+        return None
+    if p.dont_persist_default_value and param_value(p) == p.default:
+        return None
+    return p._name + '=' + value_text(p)
+
+
 def param_text(entries):
-    """ParameterRegistry.repr: '###'-join of the non-None entries in ascending name order, None if empty."""
+    """K6  ParameterRegistry.repr: '###'-join of the non-None entries in ascending name order, None if empty."""
     xs = [e for e in [p.entry for n, p in sorted(entries.items())] if e is not None]
     if len(xs) > 0:
         return '###'.join(xs)
     return None
 
 
+def strip_ns(ns, name):
+    if ns:
+        return name[len(ns) + 2:]
+    return name
+
+
+def inputs_text(ns, inputs):
+    return '###'.join([strip_ns(ns, n) + '=' + k for n, k in sorted(inputs.items())])
+
+
+def key_text(ptext, ns, inputs):
+    return f'{ptext}$$${inputs_text(ns, inputs)}'
+
+
+def key_of(ptext, ns, inputs):
+    """K9  TaskParameterConfig.get_name_for_persistence."""
+    return sha256_hex(key_text(ptext, ns, inputs))[:32]
+
+
 # ------------------------------------------------------------------------------------------------
 # clauses
 # ------------------------------------------------------------------------------------------------
+def k1_eq_spec(obj, result):
+    return result == enc(obj)
+
+
+def k1_canary(result):
+    return result == 'None'
+
+
+def k2_eq_spec(self, result):
+    return result == value_text(self)
+
+
+def k2_canary(result):
+    return result == ''
+
+
+def k3_eq_spec(self, result):
+    return result == param_entry(self)
+
+
+def k3_canary(result):
+    return result is None
+
+
+def k4_eq_spec(self, result):
+    return result == param_value(self)
+
+
+def k4_canary(result):
+    return result is None
+
+
 def k6_eq_spec(self, result):
     return result == param_text(self._parameters)
 
@@ -39,7 +159,62 @@ def k6_canary(result):
     return result is None
 
 
+def k9_names_prefixed(self, task):
+    """the code asserts it: inside a namespace every input name starts with the namespace"""
+    ns = task._cfg.namespace
+    return ns is None or ns == '' or all([n.startswith(ns) for n in self.input_tasks])
+
+
+def k9_eq_spec(self, task, result):
+    return result == key_of(task.parameters.repr, task._cfg.namespace, self.input_tasks)
+
+
+def k9_canary(result):
+    return result.startswith('a')
+
+
+ParamsIface = Iface('ParamsIface', props={'repr': Prop(Opt(Str))})
+CfgNsIface = Iface('CfgNsIface', props={'namespace': Prop(Opt(Str))})
+TaskForKeyIface = Iface('TaskForKeyIface',
+                        props={'parameters': Prop(Abs(ParamsIface, 'task.parameters')), '_cfg': Prop(Abs(CfgNsIface, 'task.cfg'))},
+                        methods={'get_config': Meth(field='_cfg')})
+
+
 CONTRACTS = [
+    Contract(
+        id='K1', target='taskchain.utils.clazz:repr_from_instantiation',
+        props={'C12': 'decisive', 'C02': 'supporting', 'C03': 'supporting'},
+        inputs={'obj': S(Dyn, 'obj')},
+        callees={'taskchain.utils.clazz:repr_from_instantiation': ByContract(spec='enc'),
+                 'taskchain.utils.clazz:isinstance': ByContract(spec='builtin_isinstance')},
+        ensures={'eq_spec': 'k1_eq_spec'},
+        canary='k1_canary', l0=['A-repr', 'A-sorted', "K1' (clazz.isinstance == builtins.isinstance, bounded check)"],
+    ),
+    Contract(
+        id='K4', target='taskchain.parameter:Parameter.value',
+        props={'C12': 'decisive', 'C02': 'supporting', 'C03': 'supporting'},
+        inputs={'self': ParamObj()},
+        ensures={'eq_spec': 'k4_eq_spec'},
+        canary='k4_canary',
+    ),
+    Contract(
+        id='K2', target='taskchain.parameter:AbstractParameter.value_repr',
+        props={'C12': 'decisive', 'C02': 'supporting', 'C03': 'supporting'},
+        inputs={'self': ParamObj()},
+        callees={'taskchain.parameter:Parameter.value': ByContract(spec='param_value'),
+                 'taskchain.utils.clazz:repr_from_instantiation': ByContract(spec='enc')},
+        ensures={'eq_spec': 'k2_eq_spec'},
+        canary='k2_canary',
+    ),
+    Contract(
+        id='K3', target='taskchain.parameter:AbstractParameter.repr',
+        props={'C12': 'decisive', 'C02': 'supporting', 'C03': 'supporting'},
+        inputs={'self': ParamObj()},
+        callees={'taskchain.parameter:Parameter.value': ByContract(spec='param_value'),
+                 'taskchain.parameter:AbstractParameter.value_repr': ByContract(spec='value_text')},
+        ensures={'eq_spec': 'k3_eq_spec'},
+        canary='k3_canary',
+    ),
     Contract(
         id='K6', target='taskchain.parameter:ParameterRegistry.repr',
         props={'C12': 'decisive', 'C02': 'supporting', 'C03': 'supporting'},
@@ -48,5 +223,14 @@ CONTRACTS = [
         ensures={'eq_spec': 'k6_eq_spec'},
         loops={0: Loop('k6_inv', cells={'reprs': Seq(Str)}, vars={'repr': Opt(Str), 'name': Str, 'parameter': ParamEntry})},
         canary='k6_canary',
+    ),
+    Contract(
+        id='K9', target='taskchain.chain:TaskParameterConfig.get_name_for_persistence',
+        props={'C12': 'decisive', 'C02': 'supporting', 'C03': 'supporting'},
+        inputs={'self': Obj('taskchain.chain:TaskParameterConfig', input_tasks=SymDict(Str, Str, 'inputs')),
+                'task': Abs(TaskForKeyIface, 'task')},
+        requires=['k9_names_prefixed'],
+        ensures={'eq_spec': 'k9_eq_spec'},
+        canary='k9_canary', l0=['A-sha', 'A-sorted'],
     ),
 ]
